@@ -235,3 +235,30 @@ PROPS["C12"] = dict(
     modelled="pkg/prune/prune.go (findCommitsToRemove, pruneTables, Prune) over CommitsQueue",
     assumptions=["objects.GetAll*Keys return the sorted key lists of the store", "a prune interrupted half-way is C13's subject"],
 )
+
+PROPS["C14"] = dict(
+    registered=True,
+    level_text="Kernel-checked for every fresh transaction, every failure/crash position and every branch order (Go iterates a map): after an interrupted commit plus a re-run every staged branch sits at its staged commit on top of its ORIGINAL head, "
+               "moved and logged exactly once, and the transaction is committed; an interrupted run leaves each branch at its old or its final position; a committed transaction can be neither committed nor discarded again and the refused call changes nothing; "
+               "discard of an open transaction removes exactly the staged refs; the unguarded variants are proved to violate this. Correspondence: real transaction.Commit/Discard behind fault-injecting store wrappers, every write position, re-runs, double commit, discard-after-commit == model state by state.",
+    level_note=LEVEL_NOTE + "Each ref-store call is assumed atomic (one SQL transaction); faults inside Discard are not explored; the guards are extracted facts (status check + skip of already-logged branches in Commit, status check before deleting staged refs in Discard).",
+    lean_modules=["WrglModel.Props.C14"],
+    quick_n=600, thorough_n=8000,
+    rule="transactions staging 1..3 branches (new and existing) over 4 branch names; operation sequences: commit with an injected write failure at every position (0..2k) then "
+         "re-run(s), double commit, discard after commit, discard then commit, failed commit then discard; real transaction.Commit/Discard on a mock object store + SQLite ref store "
+         "behind fault-injecting wrappers; branch heads (as content-addressed ids), staged refs, status, per-branch reflog entries of the transaction after every step; "
+         "non-trivial = a failure strictly inside the write sequence; distinct = distinct (op, input)",
+    modelled="pkg/transaction/transaction.go (Commit, Discard) as sequences of store writes with a failure/crash before any of them",
+    assumptions=["each ref-store call (SetWithLog, UpdateTransaction, DeleteTransaction) is atomic (one SQL transaction)", "Go's map iteration order over staged branches: the model follows the order the run took"],
+)
+
+PROPS["C13"] = dict(
+    lean_modules=["WrglModel.Props.C13"],
+    quick_n=120, thorough_n=1500,
+    rule="seeded repositories (a branch with a real table of 3..270 rows) and one operation: commit (same or new branch, 1..4 workers), merge commit (IngestTableFromBlocks + profile + "
+         "CommitMerge), receive (ObjectReceiver over 1..n packfiles from a remote 1..2 commits ahead, then the remote-tracking ref), prune (1..2 unreachable commits); the operation is run "
+         "uninterrupted to record its write trace, then once per write position k with every write from k on failing (= the process dies before write k), the repository is re-read, "
+         "and the operation is run again to completion; non-trivial = more than 2 writes; distinct = distinct (op, input); each case contributes W crash points",
+    modelled="write sequences of ingestTableFromBlocks/insertBlock, commit (commit_cmd.go), commitMergeResult/createMergeCommit, ObjectReceiver.saveTable/IndexTable, Prune — their ORDER is extracted from the source",
+    assumptions=["each objects.Store / ref.Store call is atomic and durable (badger, SQLite): a crash is a prefix of the call sequence", "in-process stores stand in for badger/SQLite in the quick and thorough tiers"],
+)
